@@ -2,11 +2,11 @@
 # usage: run_all.sh <tier> [ids...]   - runs the checks one after the other, one log per property
 tier=${1:-quick}; shift
 ids=${@:-C01 C02 C03 C04 C05 C06 C07 C08 C09 C10 C11 C12 C13 C14 C15 C16 C17 C18 C19 C20}
-mkdir -p /verif/work/logs
-cd /verif
+mkdir -p "$(dirname "$(readlink -f "$0")")/../work/logs"
+cd "$(dirname "$(readlink -f "$0")")/.."
 for id in $ids; do
   t0=$(date +%s)
-  ./check $id --tier $tier > /verif/work/logs/$id.$tier.log 2>&1
+  ./check $id --tier $tier > work/logs/$id.$tier.log 2>&1
   rc=$?
-  echo "$id $tier exit=$rc $(( $(date +%s) - t0 ))s $(grep -c '^VIOLATION' /verif/work/logs/$id.$tier.log) violations $(grep -c '^KNOWN-FINDING' /verif/work/logs/$id.$tier.log) known"
+  echo "$id $tier exit=$rc $(( $(date +%s) - t0 ))s $(grep -c '^VIOLATION' work/logs/$id.$tier.log) violations $(grep -c '^KNOWN-FINDING' work/logs/$id.$tier.log) known"
 done
